@@ -147,6 +147,7 @@ def isnum(v):
 
 
 TOL = Fraction(1, 10 ** 9)
+TOLX = Fraction(1, 2 ** 48)      # allowance for the rounding of one double division / multiplication (16 ulp), relative to the argument
 
 
 def check_numeric(c):
@@ -179,7 +180,7 @@ def check_numeric_reading(x, d, s, X, S):
         k = R / u
         if abs(k - round(k)) > TOL * max(1, abs(k)):
             bad(f, 'a multiple of 10^%d' % -d, r)
-        slack = TOL * max(abs(X), u)
+        slack = TOLX * max(abs(X), u)
         if fn == 'ROUND' and abs(R - X) > u / 2 + slack:
             bad(f, 'within half a unit of %r' % x, r)
         if fn == 'ROUNDUP' and not (abs(X) - slack <= abs(R) < abs(X) + u + slack and (R == 0 or (R > 0) == (X > 0))):
@@ -204,7 +205,7 @@ def check_numeric_reading(x, d, s, X, S):
         R = Fraction(r)
         A = abs(S)
         k = R / A
-        slack = TOL * max(abs(X), A)
+        slack = TOLX * max(abs(X), A)
         if abs(k - round(k)) > TOL * max(1, abs(k)):
             bad(f, 'a multiple of the significance', r)
         up = (fn == 'CEILING') if (X >= 0 or S > 0) else (fn == 'FLOOR')     # which side of the number the result lies
@@ -451,7 +452,10 @@ def explore(ctx):
     work = []
     nums = list(range(-30, 31)) + [rng.randint(-3000, 3000) for _ in range(300 if big else 40)] + \
         [rng.randint(-2 ** 16, 2 ** 16) / 2.0 ** rng.randint(1, 8) for _ in range(300 if big else 40)] + \
-        [round(rng.uniform(-1000, 1000), rng.randint(1, 4)) for _ in range(300 if big else 40)] + [0.1, 0.7, 1.005, 2.675, -0.29]
+        [round(rng.uniform(-1000, 1000), rng.randint(1, 4)) for _ in range(300 if big else 40)] + [0.1, 0.7, 1.005, 2.675, -0.29] + \
+        [1234567.999, 8388607.99609375, -1234567.0005, 2469135.998, 99999.9999, -8388607.99609375, 123456789.75] + \
+        [rng.choice([1, -1]) * (rng.randint(10 ** 5, 10 ** 9) + rng.choice([1, -1]) * rng.choice([2.0 ** -8, 2.0 ** -10, 0.001, 0.0005, 0.01]))
+         for _ in range(200 if big else 30)]          # large, a hair away from a whole number
     sigs = [1, 2, 3, -1, -2, 0, 0.5, -0.5, 0.25, 7, 10, -3, 0.1, 1.5, 100]
     for x in nums:
         for d in (rng.sample(range(-6, 7), 4) if not big else range(-6, 7)):
